@@ -7,7 +7,7 @@
 //! is from_utf8_unchecked). Ids of messages obey the same rule through dlt_message.
 //!
 //! Case index space:  [0, exh_chunks)        exhaustive strings over an 8-symbol alphabet x sizes 0..=7
-//!                    [.., +id_chunks)        all 4-byte ids over a 12-symbol alphabet through dlt_message
+//!                    [.., +id_chunks)        all 4-byte ids over a 16-symbol alphabet through dlt_message
 //!                    afterwards              random long buffers / sizes up to 65535
 
 use crate::ctx::{guarded, Ctx, Monitor, Tier};
@@ -17,9 +17,9 @@ use dlt_core::dlt::*;
 use dlt_core::parse::{dlt_message, dlt_zero_terminated_string, DltParseError, ParsedMessage};
 
 const ALPHA: [u8; 8] = [0x00, b'a', 0xC3, 0xA9, 0xE2, 0x82, 0xF0, 0xFF];
-const ID_ALPHA: [u8; 12] = [0x00, b'A', b'z', b' ', 0xC3, 0xA9, 0xE2, 0x82, 0xAC, 0xF0, 0x9F, 0xFF];
+const ID_ALPHA: [u8; 16] = [0x00, 0x01, b'A', b'z', b' ', 0x7F, 0x80, 0x81, 0xC3, 0xA9, 0xE2, 0x82, 0xAC, 0xF0, 0x9F, 0xFF];
 const STR_CHUNK: u64 = 512;
-const ID_CHUNK: u64 = 64;
+const ID_CHUNK: u64 = 256;
 
 #[derive(Default)]
 pub struct M {}
@@ -43,7 +43,7 @@ pub fn id_chunks(light: bool) -> u64 {
     if light {
         2
     } else {
-        (12u64.pow(4) + ID_CHUNK - 1) / ID_CHUNK
+        (16u64.pow(4) + ID_CHUNK - 1) / ID_CHUNK
     }
 }
 
@@ -66,6 +66,9 @@ fn nth_string(mut code: u64) -> Vec<u8> {
 }
 
 fn check_field(ctx: &mut Ctx, s: &[u8], size: usize, class: &'static str) {
+    // an allocation of exactly the buffer's size (red zones directly behind the last byte)
+    let exact: Box<[u8]> = s.to_vec().into_boxed_slice();
+    let s: &[u8] = &exact;
     ctx.eval();
     ctx.mark(size as u32);
     let res = guarded(|| {
@@ -247,6 +250,69 @@ fn check_string_argument(ctx: &mut Ctx, content: &[u8], be: bool) {
     ctx.shape(&("string_argument", bucket, be, exp.len().min(9)), true);
 }
 
+/// a message cut inside one of its 4-byte id fields (0..=3 bytes of the field present), optionally
+/// with junk in front of the storage header: fewer than n bytes available -> incomplete, and
+/// nothing behind the end of the buffer is looked at (exact-size allocation for the sanitizers)
+fn check_truncated_ids(ctx: &mut Ctx, junk: &[u8]) {
+    let m = Message {
+        storage_header: Some(StorageHeader {
+            timestamp: DltTimeStamp { seconds: 1, microseconds: 2 },
+            ecu_id: "AAAA".into(),
+        }),
+        header: StandardHeader {
+            version: 1,
+            endianness: Endianness::Little,
+            has_extended_header: true,
+            message_counter: 7,
+            ecu_id: Some("BBBB".into()),
+            session_id: None,
+            timestamp: None,
+            payload_length: 5,
+        },
+        extended_header: Some(ExtendedHeader {
+            verbose: false,
+            argument_count: 0,
+            message_type: MessageType::Log(LogLevel::Info),
+            application_id: "CCCC".into(),
+            context_id: "DDDD".into(),
+        }),
+        payload: PayloadContent::NonVerbose(9, vec![1]),
+    };
+    let e = refcodec::ref_encode(&m);
+    for (which, label) in [("storage.ecu", "storage_ecu"), ("std.ecu", "header_ecu"), ("ext.apid", "apid"), ("ext.ctid", "ctid")] {
+        let f = e.find(which).unwrap();
+        for have in 0..4usize {
+            for wsh in [true, false] {
+                if !wsh && which == "storage.ecu" {
+                    continue;
+                }
+                let body = if wsh { &e.bytes[..f.start + have] } else { &e.bytes[16..f.start + have] };
+                let mut v = if wsh { junk.to_vec() } else { vec![] };
+                v.extend_from_slice(body);
+                let exact: Box<[u8]> = v.into_boxed_slice();
+                ctx.eval();
+                let res = guarded(|| dlt_message(&exact, None, wsh).map(|(r, pm)| (r.len(), format!("{:?}", pm))));
+                let missing = 4 - have;
+                let detail = |got: String| J::obj().set("input_hex", hex_trunc(&exact, 64)).set("field", label).set("bytes_of_field_present", have).set("with_storage_header", wsh).set("junk_len", junk.len()).set("got", got);
+                match res {
+                    Err(p) => ctx.panic_violation("ids.no_panic", &p, || detail("panic".into())),
+                    Ok(Err(DltParseError::IncompleteParse { needed })) => {
+                        // the whole message misses more than the field does; the field-level bound is the one C19 states
+                        let total_missing = e.bytes.len() - (f.start + have);
+                        if matches!(needed, Some(k) if k.get() > total_missing) {
+                            ctx.violation("ids.hint_not_above_shortfall", label, || detail(format!("needed {:?}", needed)).set("field_shortfall", missing));
+                        } else {
+                            ctx.obs("ok.truncated_id_incomplete");
+                        }
+                    }
+                    Ok(other) => ctx.violation("ids.truncated_field_must_be_incomplete", label, || detail(crate::json::trunc(&format!("{:?}", other), 200))),
+                }
+                ctx.shape(&("truncated_id", label, have, wsh, junk.len().min(9)), true);
+            }
+        }
+    }
+}
+
 /// ids built from the bytes of the storage-header pattern
 const PATTERN_ALPHA: [u8; 6] = [0x44, 0x4C, 0x54, 0x01, 0x00, b'x'];
 
@@ -271,13 +337,13 @@ impl Monitor for M {
         if i < ic {
             ctx.obs("chunks.exhaustive_ids");
             // interpreters: 8 ids per chunk, spread over the id space
-            let (lo, hi, step) = if light { (i * 5003, i * 5003 + 8 * 997, 997) } else { (i * ID_CHUNK, ((i + 1) * ID_CHUNK).min(12u64.pow(4)), 1) };
+            let (lo, hi, step) = if light { (i * 5003, i * 5003 + 8 * 997, 997) } else { (i * ID_CHUNK, ((i + 1) * ID_CHUNK).min(16u64.pow(4)), 1) };
             for code in (lo..hi).step_by(step) {
                 let mut c = code;
                 let mut id = [0u8; 4];
                 for b in id.iter_mut() {
-                    *b = ID_ALPHA[(c % 12) as usize];
-                    c /= 12;
+                    *b = ID_ALPHA[(c % 16) as usize];
+                    c /= 16;
                 }
                 check_ids(ctx, id);
             }
@@ -295,6 +361,12 @@ impl Monitor for M {
             }
             ctx.obs("ids.over_pattern_bytes");
             check_ids(ctx, id);
+        }
+        // id fields cut short, with 0..20 bytes of pattern-free junk in front (walks with the case index)
+        {
+            let jl = ((i - ic) % 21) as usize;
+            let junk: Vec<u8> = (0..jl).map(|k| [b'x', 0x44, 0x4C, 0x00, 0xFF][(k + jl) % 5]).collect();
+            check_truncated_ids(ctx, &junk);
         }
         // a string argument of a declared size around a power of two / anywhere up to the maximum
         if !light || ctx.rng.chance(1, 4) {
@@ -384,11 +456,11 @@ impl Monitor for M {
         let light = ctx.light();
         let ml = max_len(ctx.tier, light);
         super::describe(
-            &format!("exhaustive: all {} byte strings of length <= {} over {{00,'a',C3,A9,E2,82,F0,FF}} x all sizes 0..=7; all 12^4 = 20736 four-byte ids over {{00,'A','z',' ',C3,A9,E2,82,AC,F0,9F,FF}} planted into storage-ECU / header-ECU / APID / CTID of a reference-encoded message and read back through dlt_message; random: per case one of the 6^4 ids over the bytes {{44,4C,54,01,00,'x'}} of the storage-header pattern through the same four fields, one verbose string argument of declared size n (around every power of two up to 2^15, 32767..32769, up to 65515) read back through dlt_message, and buffers up to 70000 bytes (alphabet soup, valid multi-byte text, text with injected invalid sequences and NULs, arbitrary bytes) x sizes around the buffer end, around the first NUL and anywhere in 0..65535. distinct = (class, size bucket, length bucket, NUL present, salvage needed, result length bucket); non-trivial = size > 0", n_strings(ml), ml),
+            &format!("exhaustive: all {} byte strings of length <= {} over {{00,'a',C3,A9,E2,82,F0,FF}} x all sizes 0..=7; all 16^4 = 65536 four-byte ids over {{00,01,'A','z',' ',7F,80,81,C3,A9,E2,82,AC,F0,9F,FF}} planted into storage-ECU / header-ECU / APID / CTID of a reference-encoded message and read back through dlt_message; random: per case one of the 6^4 ids over the bytes {{44,4C,54,01,00,'x'}} of the storage-header pattern through the same four fields, one verbose string argument of declared size n (around every power of two up to 2^15, 32767..32769, up to 65515) read back through dlt_message, a message cut inside each of its four id fields (0-3 bytes of the field present, 0-20 junk bytes in front, exact-size allocations), and buffers up to 70000 bytes (alphabet soup, valid multi-byte text, text with injected invalid sequences and NULs, arbitrary bytes) x sizes around the buffer end, around the first NUL and anywhere in 0..65535. distinct = (class, size bucket, length bucket, NUL present, salvage needed, result length bucket); non-trivial = size > 0", n_strings(ml), ml),
             &["longest valid UTF-8 prefix is computed by a naive scalar-by-scalar validator written for the harness (RFC 3629 ranges)"],
             &[("ok.complete", super::scaled(ctx, 10000)), ("ok.utf8_salvaged", super::scaled(ctx, 1000)), ("ok.incomplete_with_hint", 100), ("ok.id", super::scaled(ctx, 5000))],
         )
         .set("fixed_chunks", exh_chunks(ctx.tier, light) + id_chunks(light))
-        .set("exhaustive_space", format!("{} strings x 8 sizes + 20736 ids x 4 fields", n_strings(ml)))
+        .set("exhaustive_space", format!("{} strings x 8 sizes + 65536 ids x 4 fields", n_strings(ml)))
     }
 }
